@@ -10,9 +10,9 @@ oracle `mk` of `SnowModel.RandRange` for `unique: true`.
 
 What the code *does* is modelled, including its quirks:
 * `save_row` stores `table_counters[tablename] = max(row_id, table_counters.get(tablename) or 0)`
-  (since fix 9826fcb: the counter never moves backwards) and, in the same dict,
-  `table_counters[nickname] = nickname_id`;
-* `reset_locals` snapshots that dict;
+  (since fix 9826fcb: the counter never moves backwards); nickname ordinals live only in
+  `nickname_counters` (since fix 07a822a: no longer also in `table_counters[nickname]`);
+* `reset_locals` snapshots both dicts (`local_counters`, `local_nickname_counters`);
 * `RowHistory.__init__` calls `reset_locals`; `resave_objects_from_continuation` re-saves the
   just_once rows of a continuation and then calls `reset_locals` again (fix 9826fcb), so the
   re-saved rows are earlier-iteration rows: one operation `Op.resave`.
@@ -49,12 +49,14 @@ structure St where
   tables : List Name
   /-- `nickname_to_tablename` (entries with nickname = table removed) -/
   nickToTable : List (Name × Name)
-  /-- `table_counters.get(k, 0)`; keys are table names *and* nicknames -/
+  /-- `table_counters.get(k, 0)`; keys are table names only (fix 07a822a) -/
   tableCtr : Name → Nat
   /-- `nickname_counters[k]` (a `defaultdict(int)`) -/
   nickCtr : Name → Nat
   /-- `local_counters.get(k, 0)` -/
   localCtr : Name → Nat
+  /-- `local_nickname_counters.get(k, 0)` -/
+  localNick : Name → Nat
   /-- rows inserted so far, oldest first -/
   rows : List SRow
   /-- ghost: number of `reset_locals` calls so far (`__init__` performs the first) -/
@@ -73,6 +75,7 @@ def init (counters : List (Name × Nat)) (tables : List Name) (nickmap : List (N
     tableCtr := ctrOf counters
     nickCtr := fun _ => 0
     localCtr := ctrOf counters
+    localNick := fun _ => 0
     rows := []
     epoch := 1
     prior := ctrOf counters }
@@ -98,7 +101,7 @@ def save (s : St) (table : Name) (nick : Option Name) (id : Nat) (resave : Bool)
     match nick with
     | some n =>
       let k := s.nickCtr n + 1
-      .ok { s with tableCtr := upd tc1 n k, nickCtr := upd s.nickCtr n k,
+      .ok { s with tableCtr := tc1, nickCtr := upd s.nickCtr n k,
                    rows := s.rows ++ [{ table := table, id := id, nick := some n, ord := some k,
                                         since := s.epoch, resaved := resave }] }
     | none =>
@@ -107,7 +110,8 @@ def save (s : St) (table : Name) (nick : Option Name) (id : Nat) (resave : Bool)
                                         since := s.epoch, resaved := resave }] }
 
 /-- `reset_locals()` -/
-def resetLocals (s : St) : St := { s with localCtr := s.tableCtr, epoch := s.epoch + 1 }
+def resetLocals (s : St) : St :=
+  { s with localCtr := s.tableCtr, localNick := s.nickCtr, epoch := s.epoch + 1 }
 
 /-- What `random_row_reference` hands to `randomizer_func`, and how the result is interpreted. -/
 structure PickRange where
@@ -135,7 +139,7 @@ def pickRange (s : St) (name : Name) (scope : Scope) : Except Err PickRange :=
       let minId :=
         if scope = .prior then 1
         else match nick with
-          | some n => minIdLocal (s.localCtr n)
+          | some n => minIdLocal (s.localNick n)
           | none => minIdLocal (s.localCtr table)
       .ok { nick := nick, table := table, lo := fallback minId maxId, hi := maxId }
 
